@@ -1,7 +1,7 @@
 (* C11 -- get_many as the code stands after the repair of F37 (a repeated member name is stepped over). Statements only. *)
 From Coq Require Import List Arith.
 From SonicV Require Import Model.Many Model.ManySeen.
-From SonicV Require Model.ManyBuild.
+From SonicV Require Model.ManyBuild Model.ManyComplete Model.ManySeenComplete.
 Import ListNotations.
 
 (* every slot the search fills holds exactly what single-path lookup (first occurrence) finds for that slot's
@@ -22,6 +22,23 @@ Theorem get_many_agrees_with_get_as_repaired : forall (key : Type) (keq : forall
   exists fuel out', rec2 key keq fuel (ManyBuild.build key keq paths) v (fun _ => None) (length paths) = Some (out', 0) /\
     forall i p, nth_error paths i = Some p -> out' i = lookup key keq v p.
 Proof. exact get_many_seen_agrees_with_get. Qed.
+
+(* completeness for EVERY document: a tree with distinct sibling names whose paths all resolve, a counter at least the
+   number of slots => the search succeeds, decreases the counter by exactly that number, fills every slot, un-fills none *)
+Theorem get_many_search_complete_on_every_document : forall (key : Type) (keq : forall a b : key, {a = b} + {a <> b}) t,
+  ManyComplete.wf key t -> forall v out remain, ManyComplete.resolves key keq t v -> ManyComplete.need key t <= remain ->
+  exists fuel out', rec2 key keq fuel t v out remain = Some (out', remain - ManyComplete.need key t) /\
+    ManyComplete.keeps key out out' /\ ManyComplete.filled key (slots key t) out'.
+Proof. exact ManySeenComplete.rec2_complete. Qed.
+
+(* C11's first sentence on the model, without any restriction on the document: all paths resolve individually =>
+   the search over the tree built by add_path succeeds with the counter used up exactly, and slot i holds what
+   single-path lookup finds for path i *)
+Theorem get_many_agrees_with_get_on_every_document : forall (key : Type) (keq : forall a b : key, {a = b} + {a <> b}) (paths : list (list key)) v,
+  (forall p, In p paths -> lookup key keq v p <> None) ->
+  exists fuel out', rec2 key keq fuel (ManyBuild.build key keq paths) v (fun _ => None) (length paths) = Some (out', 0) /\
+    forall i p, nth_error paths i = Some p -> out' i = lookup key keq v p.
+Proof. exact ManySeenComplete.get_many_correct_on_every_document. Qed.
 
 (* the search without the list (the code before the repair): on {0:{1:a,1:b},2:c} with paths 0.1 and 2 it ends
    "complete" with slot 0 = b where get finds a, and slot 1 empty where get finds c (finding F37) *)
